@@ -57,7 +57,10 @@ class NNSpacePartitioner:
         v2_onehot[v2] = 1.0
         self.v1 = v1_onehot
         self.v2 = v2_onehot
-        nn = NearestNeighbors(n_neighbors=self.k).fit(D)
+        # a tree-based search measures distances from coordinate differences; the brute-force
+        # search scikit-learn would pick for large k squares the coordinates first and loses the
+        # neighbourhoods of data with a large common offset
+        nn = NearestNeighbors(n_neighbors=self.k, algorithm="kd_tree").fit(D)
         # TODO: maybe we can gain performance by performing operations using the returned
         # scipy.sparse array, as opposed to converting this way.
         M_adj = nn.kneighbors_graph(D).toarray()
